@@ -284,23 +284,32 @@ fn run_scenario<const N: usize>(descs: &[DeviceDesc], k: usize, tasks: &[Task], 
         } else if mode == Mode::Threads {
             let live = AtomicUsize::new(futs.len());
             let abort = AtomicBool::new(false);
+            // network progress counter, and for every task the value it had when the task last
+            // polled Pending (u64::MAX = finished)
+            let net_progress = AtomicU64::new(1);
+            let pending_at: Vec<AtomicU64> = (0..futs.len()).map(|_| AtomicU64::new(0)).collect();
+            let mut stuck = false;
             let out: Vec<Option<Trace>> = std::thread::scope(|s| {
                 let handles: Vec<_> = futs
                     .into_iter()
-                    .map(|mut f| {
-                        let (live, abort) = (&live, &abort);
+                    .enumerate()
+                    .map(|(ti, mut f)| {
+                        let (live, abort, net_progress, pending_at) = (&live, &abort, &net_progress, &pending_at);
                         s.spawn(move || {
                             let waker = Waker::from(Arc::new(Unpark(std::thread::current())));
                             let mut cx = Context::from_waker(&waker);
                             let r = loop {
+                                let seen = net_progress.load(Ordering::Acquire);
                                 if let Poll::Ready(v) = f.as_mut().poll(&mut cx) {
                                     break Some(v);
                                 }
+                                pending_at[ti].store(seen, Ordering::Release);
                                 if abort.load(Ordering::Acquire) {
                                     break None;
                                 }
                                 std::thread::park_timeout(std::time::Duration::from_micros(200));
                             };
+                            pending_at[ti].store(u64::MAX, Ordering::Release);
                             live.fetch_sub(1, Ordering::AcqRel);
                             r
                         })
@@ -312,19 +321,35 @@ fn run_scenario<const N: usize>(descs: &[DeviceDesc], k: usize, tasks: &[Task], 
                 while live.load(Ordering::Acquire) > 0 {
                     if sim.pump() {
                         idle = 0;
+                        net_progress.fetch_add(1, Ordering::AcqRel);
                     } else {
                         idle += 1;
                         vh::vclock::advance_by(20);
                         std::thread::yield_now();
                     }
-                    if idle % 4096 == 4095 && t0.elapsed().as_secs() > 600 {
+                    // Nobody can make progress any more: the network has been idle for 200000 steps
+                    // (4 s of virtual time: every timer-driven wait loop would have sent something),
+                    // nothing is in flight, and every live task has polled Pending since the network
+                    // last did anything. With the effectively infinite timeouts of this mode that is
+                    // a request that will never complete - decided on logical steps, not wall time.
+                    if idle >= 200_000 && idle % 50_000 == 0 && sim.inflight.is_empty() {
+                        let now = net_progress.load(Ordering::Acquire);
+                        if pending_at.iter().all(|p| { let v = p.load(Ordering::Acquire); v == u64::MAX || v == now }) {
+                            stuck = true;
+                            abort.store(true, Ordering::Release);
+                        }
+                    }
+                    if idle % 4096 == 4095 && t0.elapsed().as_secs() > 1200 {
                         abort.store(true, Ordering::Release);
                     }
                 }
                 handles.into_iter().map(|h| h.join().ok().flatten()).collect()
             });
+            if stuck {
+                return Err("STUCK: every task is waiting, the network is idle and nothing is in flight: a request of the shared run never completes".into());
+            }
             if out.iter().any(|o| o.is_none()) {
-                return Err("WATCHDOG: threaded run did not finish within 600 s of wall clock (or a task panicked)".into());
+                return Err("WATCHDOG: threaded run did not finish within 1200 s of wall clock (or a task panicked)".into());
             }
             out.into_iter().map(|o| o.unwrap()).collect()
         } else {
